@@ -7,7 +7,7 @@ Mode S (symbolic, all real values per enumerated structure) on the Python source
 .f/.args/.activity_coefficients` of the three real model classes built on real chemicals, and on the ideal models.
 The two numerical kernels `group_activity_coefficients` and `loggammacs_*` are uninterpreted deterministic functions of
 everything they are handed in these groups (so a stale or foreign argument changes the result), except in
-`C16/vertex_value_sym`, where they run as real code on symbolic group parameters.
+`C16/vertex_value_sym`, where they run as real code (down to exp/log) for symbolic T and interaction parameters.
 
 Mode B (bounded run-time contracts, never counted as proved) on the REAL compiled models with real group data:
 gamma_i -> 1 as x_i -> 1, Gibbs-Duhem by central differences, permutation invariance, members without groups = 1,
@@ -23,7 +23,6 @@ import subprocess
 
 import numpy as np
 import thermosteam as tmo
-from thermosteam import equilibrium as eq
 from engine.api import group
 
 AC = sys.modules['thermosteam.equilibrium.activity_coefficients']
@@ -462,11 +461,13 @@ def vertex_configs(tier):
                   'thermosteam.equilibrium.activity_coefficients:fill_group_psis'],
        assumptions=['exp, log and r**0.75 are uninterpreted functions with exp(0) = 1, log(1) = 0, log(a/b) = log a - log b, exp > 0, '
                     'r**0.75 > 0 for r > 0 (ground instances over the occurring terms)',
-                    'group parameters R, Q > 0; the derived arrays r, q, Q fractions and the mask are built from them exactly as '
-                    'GroupActivityCoefficients.__new__ does (re-stated in the contract, checked against __new__ natively)'])
+                    'the derived arrays r, q, Q fractions and the mask are built from the group counts and R, Q in the contract '
+                    'the way GroupActivityCoefficients.__new__ builds them (that construction itself is exercised on real data in '
+                    'C16/object_call_is_functional_form and the mode-B groups)'])
 def vertex_value_sym(w, cfg):
-    """gamma_i = 1 at x = e_i for ALL temperatures, group volumes/areas and interaction parameters (per group structure),
-    everything real code (Python source of the njit functions) down to exp/log."""
+    """gamma_i = 1 at x = e_i for ALL temperatures and interaction parameters (per group structure; group volumes/areas R, Q
+    exact rationals, or symbolic for the smallest structure), everything real code (Python source of the njit functions)
+    down to exp/log."""
     kind = cfg['kind']
     cgl = cfg['cg']; k = len(cgl); M = len(cgl[0]); v = cfg['vertex']
     dt = object if w.symbolic else float
@@ -486,7 +487,7 @@ def vertex_value_sym(w, cfg):
         inter = np.array([[([0., 0., 0.] if i == j else [w.real(f'a{i}{j}', lo=-2000., hi=2000.), w.real(f'b{i}{j}', lo=-5., hi=5.),
                                                          w.real(f'c{i}{j}', lo=-0.01, hi=0.01)]) for j in range(M)] for i in range(M)], dtype=dt)
     cg = np.array([[float(c) for c in row] for row in cgl], dtype=dt)
-    Qs = np.array(Ql, dtype=dt); Rs = np.array(Rl, dtype=dt)
+    Qs = np.array(Ql, dtype=dt)
     rs = np.array([w.total([cgl[i][m] * Rl[m] for m in range(M) if cgl[i][m]]) for i in range(k)], dtype=dt)
     qs = np.array([w.total([cgl[i][m] * Ql[m] for m in range(M) if cgl[i][m]]) for i in range(k)], dtype=dt)
     cQfs = np.array([[(cgl[i][m] * Ql[m] / qs[i] if cgl[i][m] else 0.) for m in range(M)] for i in range(k)], dtype=dt)
@@ -676,6 +677,7 @@ def _gd_points(cfg, n, rng):
        functions=['thermosteam.equilibrium.activity_coefficients:UNIFACActivityCoefficients',
                   'thermosteam.equilibrium.activity_coefficients:DortmundActivityCoefficients',
                   'thermosteam.equilibrium.activity_coefficients:NISTActivityCoefficients',
+                  'thermosteam.equilibrium.activity_coefficients:GroupActivityCoefficients.activity_coefficients',
                   'thermosteam.equilibrium.activity_coefficients:group_activity_coefficients',
                   'thermosteam.equilibrium.activity_coefficients:loggammacs_UNIFAC',
                   'thermosteam.equilibrium.activity_coefficients:loggammacs_modified_UNIFAC'],
@@ -689,7 +691,13 @@ def B_gibbs_duhem(w, cfg):
     rng = _rng(cfg, 'gd')
     t = Tally()
     c_gd = 'Gibbs-Duhem: sum_i x_i dln(gamma_i) = 0 along simplex directions at constant T'
+    c_gdm = c_gd + ' [GroupActivityCoefficients.activity_coefficients]'
     t.declare(c_gd)
+    routes = [(c_gd, lambda x: _ev(G, x, T))]
+    if type(G) is not AC.IdealActivityCoefficients and all(has_groups(model, i) for i in IDs):
+        # the method that evaluates the kernel directly for a normalised composition of members with groups
+        routes.append((c_gdm, lambda x: np.asarray(G.activity_coefficients(np.array(x, dtype=float), T), dtype=float)))
+        t.declare(c_gdm)
     biggest = 0.; slope = 0.
     for x in _gd_points(cfg, n, rng):
         present = [j for j in range(n) if x[j] >= 1e-6]
@@ -701,11 +709,13 @@ def B_gibbs_duhem(w, cfg):
             xp = list(x); xm = list(x)
             xp[a] += h; xp[b] -= h; xm[a] -= h; xm[b] += h
             if _degenerate(model, IDs, xp) or _degenerate(model, IDs, xm): continue
-            dl = (np.log(_ev(G, xp, T)) - np.log(_ev(G, xm, T))) / (2. * h)
-            s = float(np.dot(np.array(x), dl))
-            scale = 1. + float(np.max(np.abs(dl)))
-            biggest = max(biggest, abs(s) / scale); slope = max(slope, float(np.max(np.abs(dl))))
-            t.check(c_gd, abs(s) <= 1e-6 * scale, x=x, direction=(IDs[a], IDs[b]), residual=s, dlngamma_ds=list(dl))
+            for clause, ev in routes:
+                dl = (np.log(ev(xp)) - np.log(ev(xm))) / (2. * h)
+                s = float(np.dot(np.array(x), dl))
+                scale = 1. + float(np.max(np.abs(dl)))
+                if clause is c_gd:
+                    biggest = max(biggest, abs(s) / scale); slope = max(slope, float(np.max(np.abs(dl))))
+                t.check(clause, abs(s) <= 1e-6 * scale, x=x, direction=(IDs[a], IDs[b]), residual=s, dlngamma_ds=list(dl))
     is_ideal = type(G) is AC.IdealActivityCoefficients
     if not is_ideal:
         w.ensure('canary refuted: "no coefficient changes along any direction" is rejected for a non-ideal model', slope > 1e-3)
